@@ -244,6 +244,15 @@ func (P *Program) loadSources(addr ssa.Value, deep bool) ([]ssa.Value, bool) {
 	if a := P.cellOf(addr); a != nil {
 		vals, _, _ := P.CellStores(a)
 		if len(vals) == 0 {
+			// a struct/array cell that is filled field by field (composite literal) is loaded as a whole
+			if refs := a.Referrers(); refs != nil {
+				for _, r := range *refs {
+					switch r.(type) {
+					case *ssa.FieldAddr, *ssa.IndexAddr:
+						return nil, false
+					}
+				}
+			}
 			// never stored: zero value (e.g. `var violations []T`)
 			return []ssa.Value{ssa.NewConst(nil, deref(a.Type()))}, true
 		}
